@@ -10,7 +10,7 @@ func checkC01(R *Run) {
 	R.ruleFreshDecoder(nil)
 	R.floor("fresh-decoder", 8)
 	n := R.checkCursor("cursor", nil)
-	R.floor("cursor", 14)
+	R.floor("cursor", 10)
 	_ = n
 	checkLayouts(R)
 }
